@@ -165,7 +165,7 @@ func C14(run *hx.Run) {
 func quoteCols(cols []string) []string {
 	out := make([]string, len(cols))
 	for i, c := range cols {
-		if c == "rowid" {
+		if c == "rowid" || c == "_rowid_" || c == "oid" {
 			out[i] = c
 		} else {
 			out[i] = hx.QuoteIdent(c)
